@@ -19,9 +19,9 @@ func init() {
 	// Observed on the unchanged tree: a failing KeysPrefix makes ListSplits/ListDiamonds return a short list
 	// with a nil error (mergeKeys drops the error of its input batch), a failing Get can leave the listing hung.
 	Register(&Scenario{Prop: "C07", Name: "listing-faulty", Strict: false, Quick: 0, Thorough: 0, Run: func(rc *RunCtx) *simkit.Violation { return runC07(rc, true, false) }})
-	// one store error at a chosen call (often the k-th page of keys) of a listing of repositories, bundles or labels: the
-	// listing may fail, but one that returns success is still complete, exact and ordered. (Diamond and split listings swallow
-	// store errors - see the observation in DESIGN.md - and are left out: C07 does not quantify over store faults.)
+	// one store error at a chosen call (often the k-th page of keys) of each listing: the listing may fail (or, an observation of
+	// DESIGN.md, never return), but one that returns success is still complete, exact and ordered. (Before the repair 95ae6db
+	// diamond and split listings dropped a failed page and were left out.)
 	Register(&Scenario{Prop: "C07", Name: "listing-one-store-error", Strict: false, Quick: 2, Thorough: 3, Run: func(rc *RunCtx) *simkit.Violation { c07Restricted = true; defer func() { c07Restricted = false }(); return runC07(rc, true, false) }})
 	Register(&Scenario{Prop: "C07", Name: "listing-large", Strict: true, Quick: 1, Thorough: 2, Run: func(rc *RunCtx) *simkit.Violation { return runC07(rc, false, true) }})
 }
@@ -376,9 +376,6 @@ func runC07impl(rc *RunCtx, faulty, large bool) *simkit.Violation {
 			if v := cmp("ListLabels", desc, got, sortedKeys(m.labels[r]), false, tk.Err); v != nil {
 				return v
 			}
-		}
-		if restricted {
-			continue
 		}
 		// diamonds
 		{
